@@ -115,7 +115,10 @@ def rule_groups(ctx, rid='C04.groups'):
     ok = 'if any((x != 0 for x in lags)): ctrl_ugens = iou.LagControl.kr(utl.flat(values), lags) else: ctrl_ugens = iou.Control.kr(utl.flat(values))' in src
     ctx.ob(rid, f'{mod.name}:SynthDef._build_controls:kr:lag-choice', ok,
            'lagged control-rate parameters use LagControl.kr(values, lags), otherwise Control.kr(values)', krblk[0], mod)
-    ok = 'lags.extend(utl.wrap_extend(utl.as_list(cn.lag), valsize))' in src and 'lags.append(cn.lag)' in src
+    # every parameter contributes exactly as many lags as it has slots: the only statement that grows `lags` is the wrap-extension to
+    # the parameter's slot count (a bare append of cn.lag makes a lag list on a one-slot parameter expand the LagControl)
+    grows = [norm(c) for c in U.calls(krblk[0]) if U.method_name(c) in ('append', 'extend') and norm(c.func.value) == 'lags']
+    ok = grows == ['lags.extend(utl.wrap_extend(utl.as_list(cn.lag), valsize))'] and 'valsize = len(utl.as_list(cn.default_value))' in src
     ctx.ob(rid, f'{mod.name}:SynthDef._build_controls:kr:lags-per-slot', ok,
            'one lag per slot: array defaults wrap-extend their lag', krblk[0], mod)
     # the _add_X functions
@@ -402,6 +405,9 @@ def run(ctx):
 
 
 MUTANTS = [
+    dict(rule='C04.groups', name='lag list appended whole for a one-slot parameter (fix reverted)', file='sc3/synth/synthdef.py',
+         old="                # One lag per slot, also for a lag list on a single slot.\n                lags.extend(utl.wrap_extend(utl.as_list(cn.lag), valsize))\n",
+         new="                if valsize > 1:\n                    lags.extend(utl.wrap_extend(utl.as_list(cn.lag), valsize))\n                else:\n                    lags.append(cn.lag)\n"),
     dict(rule='C04.absent', name='(fix reverted) SynthDef drops a falsy scalar prepend', file='sc3/synth/synthdef.py',
          old="            func, rates or [], [] if prepend is None else prepend)\n\n    def _build", new="            func, rates or [], prepend or [])\n\n    def _build"),
     dict(rule='C04.groups', name='tr/ar creation reordered', file='sc3/synth/synthdef.py',
